@@ -66,7 +66,7 @@ STEP_CFG = {
     "HM_LEN": dict(bound="hashmap: 2 buckets, chains <= 1"),
 }
 # opcodes whose step obligation does not close yet (listed in the evidence as not covered, never counted)
-STEP_OPEN = set()
+STEP_OPEN = {"ARR_SLICE"}   # slice retains EVERY copied element: needs all elements materialised (not built)
 
 
 def step_obligations(prop="C13"):
